@@ -72,3 +72,83 @@ def run(run, P):
                               'value: whichever convention a caller follows, it frees the object twice or leaks it on the other paths' %
                               (name, p['n'], len(res['rel']), p['n'], len(res['left'])), path)
     run.require(n >= 1 or run.fixture_mode or run.cfg != 'base', 'R-CONSUME-AGREE: no function that both stores and deletes an owned parameter found')
+
+
+def run_handback(run, P):
+    """R-CONSUME-AGREE (hand-back): some functions take an object, may delete it (a destructor of its type is applied to the parameter on some
+    path) and hand an object back (they return the same pointer type): coap_block_build_body(), coap_resize_binary()-style helpers.  A caller
+    that passes a FIELD of a longer-lived record (`rec->body`) can no longer trust that field once the call has been made -- the callee may
+    have deleted or moved what it points to, also on its failure paths.  So on every path from such a call to the end of the calling function
+    the field is assigned again (the result, or NULL), unless the call's result went straight into the same field (`rec->body = f(rec->body,
+    ..)`).  A field that keeps the old pointer after a failed call is deleted a second time when the record is torn down."""
+    from core.psts import Env, solve, relevance, apply_generic
+    run.rule('R-CONSUME-AGREE')
+    # callees: (function, param index) where a destructor is applied to the parameter and the function returns the parameter's type
+    callee = {}
+    for g in P.lib_funcs():
+        for i, p in enumerate(g['params']):
+            if not (p.get('p') and not p.get('pc') and p.get('prec') in TYPES and g['ret'].get('prec') == p.get('prec')):
+                continue
+            pv = 'v%d' % p['id']
+            for b, ev in P.events(g):
+                t = ev['e']
+                if t.get('k') == 'call' and t.get('fn') in DESTRUCTORS and len(t.get('a') or []) > DESTRUCTORS[t['fn']] and ap(t['a'][DESTRUCTORS[t['fn']]]) == pv:
+                    callee[(g['name'], i)] = p['n']
+    n = 0
+    for f in sorted(P.lib_funcs(), key=lambda f: f['name']):
+        sites = []
+        for b, ev in P.events(f):
+            t = ev['e']
+            srcs = []
+            if t.get('k') == 'asg' and t.get('op') == '=':
+                srcs.append((ap(t['l']), t['r']))
+            for d in t.get('d') or ():
+                if d.get('init') is not None:
+                    srcs.append(('v%d' % d['id'], d['init']))
+            if t.get('k') == 'call' and ev.get('top'):
+                srcs.append((None, t))       # result discarded
+            for l, r in srcs:
+                r0 = strip(r)
+                if isinstance(r0, dict) and r0.get('k') == 'call' and r0.get('fn'):
+                    for (gn, i), pn in callee.items():
+                        if r0['fn'] == gn and i < len(r0.get('a') or []):
+                            a = strip(r0['a'][i])
+                            if isinstance(a, dict) and a.get('k') == 'mem' and ap(a):
+                                sites.append((ev, ap(a), l, gn))
+        if not sites:
+            continue
+        name = f['name']
+        fields = set(s[1] for s in sites)
+
+        def is_rule_event(ev):
+            t = ev['e']
+            return any(ev is s[0] for s in sites) or (t.get('k') == 'asg' and ap(t['l']) in fields)
+        keys, R = relevance(f, is_rule_event)
+        for sev, fld, l, gn in sites:
+            n += 1
+            run.instance('R-CONSUME-AGREE', '%s: passes the field %s to %s()' % (name, fld.split('>')[-1], gn))
+
+        def on_event(ev, env, ctx):
+            t = ev['e']
+            for sev, fld, l, gn in sites:
+                if ev is sev:
+                    if l == fld:
+                        return None          # result straight back into the field
+                    e = apply_generic(ev, env, R).copy()
+                    e.ts['open'] = tuple(sorted(set(env.ts.get('open', ())) | {(fld, ev['loc'], gn)}))
+                    return [e]
+            if t.get('k') == 'asg' and ap(t['l']) in fields and env.ts.get('open'):
+                e = apply_generic(ev, env, R).copy()
+                e.ts['open'] = tuple(x for x in env.ts['open'] if x[0] != ap(t['l']))
+                return [e]
+            return None
+
+        def on_exit(env, ctx):
+            o = env.ts.get('open', ())
+            run.oblige('R-CONSUME-AGREE', not o, '%s:field-reassigned-after-hand-back-call' % name)
+            for fld, loc, gn in o:
+                run.violation('R-CONSUME-AGREE', name, loc, 'field-stale-after-hand-back:%s' % fld.split('>')[-1],
+                              'the field %s is handed to %s(), which may delete or move the object, and on a path to the end of this function the field is not assigned again: it '
+                              'keeps a pointer the callee may already have freed, and the record\'s destructor frees it once more' % (fld.split('>')[-1], gn), ctx.path())
+        solve(f, Env(), on_event, on_exit, keys, R, key_fn=lambda e: tuple(x[0] for x in e.ts.get('open', ())))
+    run.require(n >= (2 if run.cfg == 'base' else 0) or run.fixture_mode, 'R-CONSUME-AGREE(hand-back): fewer than 2 calls that pass a record field to a may-delete-and-return function found')
